@@ -9,8 +9,18 @@ LEVEL_TEXT = ('Information-flow obligations on the real Key.public, HDKey.public
               'secret, chain code, depth, index, compressed and uncompressed keys, and for the state left by an earlier private WIF export '
               '(the cache that exposed the repaired defect). Arbitrary earlier call sequences are covered natively only (bounded).')
 LEVEL_NOTE = ('Declassifiers: ec_mulG (public point), ecdsa_sign. Assumed: base58encode / to_bytes helper models, sha256 UF, deepcopy = '
-              'field-wise copy. NOT covered: as_dict / as_json / __repr__ / info (need Address construction), WalletKey / Wallet views, '
-              'database column encryption; pickling is covered by "every attribute" (pickle serialises __dict__).')
-NOT_COVERED = ['Key.as_dict/as_json/__repr__/info', 'WalletKey.public, Wallet.public_master, Wallet.wif, Wallet.as_dict', 'db.EncryptedBinary / EncryptedString']
+              'field-wise copy. Pickling is covered by "every attribute" (pickle serialises __dict__). The wallet-level views (Wallet / WalletKey / '
+              'WalletTransaction dictionaries, JSON, repr, info, keys(as_dict=True) under every filter, public_master, the watch-only wallet made from the '
+              'public export together with its database file, and the database file under DB_FIELD_ENCRYPTION_KEY) go through SQLAlchemy and are outside the '
+              'verifier: they are covered by a BOUNDED native stand-in (bounded/c16_views.py, never counted as proved) whose oracle derives the private '
+              'scalars from the wallet seed independently and looks for them as raw bytes (either endianness), integer, decimal, hex, and inside every '
+              'base58 / hex token (WIF, extended private key).')
+NOT_COVERED = ['Key.as_dict/as_json/__repr__/info under the verifier (bounded only)', 'wallet-level views and database encryption under the verifier (bounded only)']
 TRUSTED = ['secret labelling: symbols named SECRET!*; declassifiers ec_mulG / ecdsa_sign', 'copy.deepcopy modelled as field-wise copy']
 FUZZ_QUICK = 60
+
+
+
+def extra_checks(tier, seed, opens):
+    from bounded import c16_views
+    return [c16_views.run(tier, seed, opens)]
